@@ -11,7 +11,9 @@
     minorTensor        minor_tensor                       linear_algebra.rs:287-312
     inverse            inverse (Matrix)                   linear_algebra.rs:79-134
     inverseTensor      inverse_less_generic               linear_algebra.rs:180-240
-    transposeSquare    Matrix::transpose_mut (square) / Tensor::reorder_mut (square, D = 2)
+    transposeSquare    Matrix::transpose_mut (square)
+    transposeMutSquare Tensor::transpose_mut / reorder_mut (square, D = 2), names resolved through
+                       DimensionMappings::new               tensors/mod.rs:1292-1302, 1359-1395
                                                           matrices/mod.rs:1040-1058,
                                                           tensors/mod.rs:1359-1395
 
@@ -147,6 +149,29 @@ def transposeSquare (n : Nat) (data : List α) : List α :=
     (fun d (ij : Nat × Nat) => if ij.1 > ij.2 then d else swap d (ij.2 + ij.1 * n) (ij.1 + ij.2 * n))
     data
 
+/-- `cofactor_matrix.transpose_mut([shape[1].0, shape[0].0])` on the square cofactor tensor
+    (`Tensor::transpose_mut` → `reorder_mut`, in-place branch `D == 2 && is_square`): the requested
+    order is resolved **by name** through `DimensionMappings::new`; every `[i, j]` of the requested
+    shape with `j ≥ i` is exchanged with `map_dimensions_to_source([i, j])`; the shape becomes the
+    requested one and `transpose_mut` then puts the old names back over the new lengths.
+    Returns the buffer and the shape.  (With two *equal* names the mapping is the identity and
+    nothing moves — `TensorRef` promises unique names.) -/
+def transposeMutSquare {ν : Type} [DecidableEq ν] [Inhabited ν] (shape : Shape ν) (n : Nat)
+    (data : List α) : Outcome (List α × Shape ν) :=
+  let requested : List ν := [(shape.getD 1 (default, 0)).1, (shape.getD 0 (default, 0)).1]
+  match DimensionMappings.new shape requested with
+  | none => .panic .explicit
+  | some mapping =>
+    let newShape := mapping.mapShapeToRequested shape
+    let swapped := (indexPairs n n).foldl
+      (fun d (ij : Nat × Nat) =>
+        if ij.2 ≥ ij.1 then
+          let mapped := mapping.mapDimensionsToSource [ij.1, ij.2]
+          swap d (ij.2 + ij.1 * n) (mapped.getD 1 0 + mapped.getD 0 0 * n)
+        else d)
+      data
+    .ok (swapped, List.zipWith (fun old new => (old.1, new.2)) shape newShape)
+
 variable [Add α] [Sub α] [Mul α] [Div α] [Zero α] [One α] [NumOrd α]
 
 /-- `i8::pow(-1, (i % 2 + j % 2))` converted into `T`: `one` or `zero - one` -/
@@ -164,16 +189,16 @@ def cofactorLoop (minor : Nat → Nat → Outcome (Option α)) :
     | .ok none => .ok none
     | .ok (some ijMinor) => cofactorLoop minor rest (acc ++ [cofactorSign i j * ijMinor])
 
-/-- the part of `inverse` / `inverse_less_generic` after the non-zero determinant is known:
-    cofactors, transposition, scaling by `1 / det` -/
-def adjugateScaled (n : Nat) (det : α) (minor : Nat → Nat → Outcome (Option α)) :
-    Outcome (Option (List α)) :=
+/-- the cofactor matrix (row-major) filled by the double loop of `inverse` /
+    `inverse_less_generic` -/
+def cofactorMatrix (n : Nat) (minor : Nat → Nat → Outcome (Option α)) : Outcome (Option (List α)) :=
+  cofactorLoop minor (indexPairs n n) []
+
+/-- `map_mut(|element| element * determinant_reciprocal.clone())` with
+    `determinant_reciprocal = T::one() / det` -/
+def scaleByReciprocal (det : α) (l : List α) : List α :=
   let determinantReciprocal : α := 1 / det
-  match cofactorLoop minor (indexPairs n n) [] with
-  | .panic k => .panic k
-  | .ok none => .ok none
-  | .ok (some cofactors) =>
-    .ok (some ((transposeSquare n cofactors).map fun element => element * determinantReciprocal))
+  l.map fun element => element * determinantReciprocal
 
 /-- `linear_algebra::inverse` (and `Matrix::inverse`) -/
 def inverse (m : Matrix α) : Outcome (Option (Matrix α)) :=
@@ -186,14 +211,16 @@ def inverse (m : Matrix α) : Outcome (Option (Matrix α)) :=
     | none => .ok none
     | some det =>
       if NumOrd.eq det (0 : α) then .ok none
-      else match adjugateScaled m.rows det (fun i j => .ok (minorMatrix m i j)) with
+      else match cofactorMatrix m.rows (fun i j => .ok (minorMatrix m i j)) with
         | .panic k => .panic k
         | .ok none => .ok none
-        | .ok (some data) => .ok (some ⟨data, m.rows, m.columns⟩)
+        | .ok (some cofactors) =>
+          .ok (some ⟨scaleByReciprocal det (transposeSquare m.rows cofactors), m.rows, m.columns⟩)
 
 /-- `linear_algebra::inverse_tensor` (and `Tensor::inverse`, `TensorView::inverse`); `names` are
     the two dimension names of the input's shape. -/
-def inverseTensor {ν : Type} (names : ν × ν) (v : View α) : Outcome (Option (Tensor ν α)) :=
+def inverseTensor {ν : Type} [DecidableEq ν] [Inhabited ν] (names : ν × ν) (v : View α) :
+    Outcome (Option (Tensor ν α)) :=
   let shape : Shape ν := [(names.1, v.rows), (names.2, v.cols)]
   if v.rows != v.cols then .ok none
   else if v.rows == 1 then
@@ -204,10 +231,14 @@ def inverseTensor {ν : Type} (names : ν × ν) (v : View α) : Outcome (Option
     | none => .ok none
     | some det =>
       if NumOrd.eq det (0 : α) then .ok none
-      else match adjugateScaled v.rows det (minorTensor v) with
+      else match cofactorMatrix v.rows (minorTensor v) with
         | .panic k => .panic k
         | .ok none => .ok none
-        | .ok (some data) => .ok (some ⟨data, shape, computeStrides shape⟩)
+        | .ok (some cofactors) =>
+          match transposeMutSquare shape v.rows cofactors with
+          | .panic k => .panic k
+          | .ok (transposed, newShape) =>
+            .ok (some ⟨scaleByReciprocal det transposed, newShape, computeStrides newShape⟩)
 
 end Inverse
 
